@@ -11,6 +11,8 @@
                receive_datagram.
    The model follows the tree WITH the three C18 fixes (docs/C18.md: F1 no connection ID left -> PROTOCOL_VIOLATION,
    F2 late NEW_CONNECTION_ID retired at once, F3 RETIRE_CONNECTION_ID of a never-sent host ID -> PROTOCOL_VIOLATION).
+   datagrams_to_send takes a builder budget: how many CID frames QuicPacketBuilder.start_frame() accepts before it
+   raises QuicPacketBuilderStop (packet_builder.py; swallowed by datagrams_to_send) -- see "sending" below.
    No proofs in this file. *)
 From AQ Require Import lib.Base lib.Tok gen.C18Consts.
 
@@ -180,14 +182,51 @@ Definition packet_done (s : st) : outc * st :=
 
 (* ------------------------------------------------------------------ sending *)
 
-(* _write_application: NEW_CONNECTION_ID for every host ID not yet sent (ConnectionIdIssued each), then
-   RETIRE_CONNECTION_ID for every pending sequence number (assuming the packet has room for them).
+(* Every NEW_/RETIRE_CONNECTION_ID frame is written through builder.start_frame(), which raises
+   QuicPacketBuilderStop when the packet has no room for the frame's capacity or -- these are in-flight frames --
+   the congestion window has none (remaining_buffer_space / remaining_flight_space < capacity); the pacer can
+   also keep _write_application from starting a packet at all.  The exception aborts the whole write pass and is
+   swallowed by datagrams_to_send().  How many CID frames the builder accepts in one datagrams_to_send() call is
+   therefore an INPUT of the model: the budget b (like the size budgets of the C06 send model).  A refused
+   frame must leave the bookkeeping untouched: was_sent is set after start_frame() returned, and the RETIRE loop
+   is "for seq in list[:]: write(seq); list.pop(0)" -- the pop comes after the write. *)
+
+(* the NEW_CONNECTION_ID loop: "for connection_id in self._host_cids: if not connection_id.was_sent: write".
+   Returns (_host_cids afterwards, sequence numbers written, Some budget left | None = QuicPacketBuilderStop) *)
+Fixpoint write_news (hs : list hcid) (b : Z) : list hcid * list Z * option Z :=
+  match hs with
+  | [] => ([], [], Some b)
+  | h :: t =>
+      if h_sent h then let '(t', w, r) := write_news t b in (h :: t', w, r)
+      else if b <=? 0 then (h :: t, [], None)                      (* start_frame raises: nothing changed *)
+      else let '(t', w, r) := write_news t (b - 1) in (mkH (h_seq h) true :: t', h_seq h :: w, r)
+  end.
+
+(* the RETIRE_CONNECTION_ID loop.  Returns (sequence numbers written, _retire_connection_ids afterwards) *)
+Fixpoint write_rets (pd : list Z) (b : Z) : list Z * list Z :=
+  match pd with
+  | [] => ([], [])
+  | q :: t =>
+      if b <=? 0 then ([], q :: t)                                 (* start_frame raises before pop(0) *)
+      else let '(w, r) := write_rets t (b - 1) in (q :: w, r)
+  end.
+
+(* host IDs whose NEW_CONNECTION_ID is owed (list order = write order) *)
+Definition unsent (hs : list hcid) : list Z := map h_seq (filter (fun h => negb (h_sent h)) hs).
+
+(* _write_application, CID part, with builder budget b: NEW_CONNECTION_ID for the host IDs not yet sent
+   (ConnectionIdIssued each), then -- unless the builder stopped -- RETIRE_CONNECTION_ID for the pending
+   sequence numbers, oldest first, until the builder stops.
    Returns (destination ID sequence number, NEW_CONNECTION_ID seqs written, RETIRE seqs written). *)
-Definition send (s : st) : (Z * list Z * list Z) * st :=
-  let news := map h_seq (filter (fun h => negb (h_sent h)) (hosts s)) in
-  let hosts' := map (fun h => mkH (h_seq h) true) (hosts s) in
+Definition send (s : st) (b : Z) : (Z * list Z * list Z) * st :=
+  let '(hosts', news, rest) := write_news (hosts s) b in
   let s1 := set_host s hosts' (hseq s) (fold_left Z.max news (hsent s)) (issued s ++ news) (retiredev s) in
-  ((cur s, news, pend s), set_deliv s1 [] (outs s ++ pend s) (ackd s)).
+  match rest with
+  | None => ((cur s, news, []), s1)
+  | Some b' =>
+      let '(rets, pend') := write_rets (pend s) b' in
+      ((cur s, news, rets), set_deliv s1 pend' (outs s ++ rets) (ackd s))
+  end.
 
 (* _on_retire_connection_id_delivery *)
 Definition retire_delivery (s : st) (q : Z) (acked : bool) : st :=
@@ -208,7 +247,7 @@ Inductive op :=
 | RecvRetire (q : Z)
 | PacketDone
 | LocalChange
-| Send
+| Send (b : Z)            (* datagrams_to_send(); b = CID frames the builder accepts in this call *)
 | RetireDelivery (q : Z) (acked : bool)
 | NewCidDelivery (q : Z) (acked : bool).
 
@@ -220,7 +259,7 @@ Definition step (s : st) (o : op) : outc * st :=
   | RecvRetire q => recv_retire s q
   | PacketDone => packet_done s
   | LocalChange => local_change s
-  | Send => match closed s with None => (OOk, snd (send s)) | Some _ => (OIgn, s) end
+  | Send b => match closed s with None => (OOk, snd (send s b)) | Some _ => (OIgn, s) end
   | RetireDelivery q a => (OOk, retire_delivery s q a)
   | NewCidDelivery q a => (OOk, newcid_delivery s q a)
   end.
@@ -237,9 +276,9 @@ Fixpoint run (s : st) (ops : list op) : st :=
                         prints: outcome of the DCID check, outcome of the last frame run (if accepted)
      10 d k f1..fk      the same, silent
      5                  change_connection_id(): prints outcome
-     6                  datagrams_to_send: prints 0, dcid-seq, NEW_CONNECTION_ID seqs, RETIRE seqs, obs
-                        (4, obs when closing)
-     11                 the same, silent
+     6 b                datagrams_to_send, the builder accepts b CID frames: prints 0, dcid-seq,
+                        NEW_CONNECTION_ID seqs, RETIRE seqs, obs (4, obs when closing)
+     11 b               the same, silent
      7 q a | 8 q a      delivery outcome of a RETIRE / NEW_CONNECTION_ID frame (silent)
      12                 prints obs
    outcome tokens: 0 ok | 1 code | 3 drop | 4 ignored (2 = exception escaped: never printed by the model)
@@ -282,14 +321,14 @@ Fixpoint exec_cid_loop (fuel : nat) (s : st) (toks : list Z) : list Z :=
   | 10 :: d :: k :: t =>
       let '(_, s', rest) := run_packet s d k t in exec_cid_loop fuel s' rest
   | 5 :: t => let '(o, s') := step s LocalChange in out_outc o ++ exec_cid_loop fuel s' t
-  | 6 :: t =>
+  | 6 :: b :: t =>
       match closed s with
       | None =>
-          let '((d, news, rets), s') := send s in
+          let '((d, news, rets), s') := send s b in
           [0; d] ++ out_list news ++ out_list rets ++ obs s' ++ exec_cid_loop fuel s' t
       | Some _ => out_outc OIgn ++ obs s ++ exec_cid_loop fuel s t
       end
-  | 11 :: t => exec_cid_loop fuel (snd (step s Send)) t
+  | 11 :: b :: t => exec_cid_loop fuel (snd (step s (Send b))) t
   | 7 :: q :: a :: t => exec_cid_loop fuel (snd (step s (RetireDelivery q (z2b a)))) t
   | 8 :: q :: a :: t => exec_cid_loop fuel (snd (step s (NewCidDelivery q (z2b a)))) t
   | 12 :: t => obs s ++ exec_cid_loop fuel s t
